@@ -11,7 +11,7 @@ Inductive qres := QOk (out : list event) | QErr.
 Fixpoint remove_first (x : event) (l : list event) : option (list event) :=
   match l with
   | [] => None
-  | y :: l' => if event_eqb x y then Some l'
+  | y :: l' => if ev_eqb x y then Some l'
                else match remove_first x l' with Some r => Some (y :: r) | None => None end
   end.
 
@@ -23,7 +23,7 @@ Fixpoint perm_b (a b : list event) : bool :=
 
 (** same created_at sequence, same multiset of 7-tuples *)
 Definition level_eq (a b : list event) : bool :=
-  list_eqb Z.eqb (List.map ev_ts a) (List.map ev_ts b) && perm_b a b.
+  list_eqb Z.eqb (List.map ev_ts a) (List.map ev_ts b) &&& perm_b a b.
 
 Definition qres_eq (a b : qres) : bool :=
   match a, b with
@@ -55,9 +55,9 @@ Definition model_accepts (s : db) (fs : list rfilter) (maxLimit : Z) (obs : qres
               let cands := combine cs (List.map (fun f => sub_limit_of (f_limit f) maxLimit) fs) in
               let outer := sub_limit_of (Some (to_int64 maxLimit)) maxLimit in
               if forallb nodupb cs then
-                union_topn_ok cands outer out &&
+                union_topn_ok cands outer out &&&
                 (* where no LIMIT cuts through a created_at level the answer is determined *)
-                (if forallb (fun cl => match ties_of cl with [] => true | _ => false end) cands &&
+                (if forallb (fun cl => match ties_of cl with [] => true | _ => false end) cands &&&
                     match outer with None => true | Some m => zlen q <? m end
                  then level_eq q out else true)
               else level_eq q out
